@@ -178,6 +178,17 @@ func (c *Check) Finish(verifDir string, only string) int {
 			"no unsafe/reflect/cgo/assembly in the module (asserted on load)"},
 		"rule_instances": counts,
 	}
+	var fnames []string
+	nl, ne := 0, 0
+	for f, v := range analysedFuncs {
+		fnames = append(fnames, fmt.Sprintf("%s (loops %d, events %d)", f, v[0], v[1]))
+		nl += v[0]
+		ne += v[1]
+	}
+	sort.Strings(fnames)
+	cov["functions_summarised"] = fnames
+	cov["loops_summarised"] = nl
+	cov["events_summarised"] = ne
 	for k, v := range c.Extra {
 		cov[k] = v
 	}
